@@ -2025,6 +2025,11 @@ def _b_type(interp, args, kwargs, node):
         return ClassRef(x.cls)
     if isinstance(x, ExcVal):
         return ClassRef(x.cls)
+    if is_z3(x):
+        srt = x.sort()
+        for n, test in (("bool", srt == z3.BoolSort()), ("int", srt == z3.IntSort()), ("str", srt == z3.StringSort()), ("float", z3.is_fp(x))):
+            if test:
+                return ClassRef(n)
     raise Unsupported("type() of symbolic value", node)
 
 
